@@ -75,7 +75,7 @@ pub fn special_patterns() -> Vec<String> {
     for cs in ["\\p{Lu}", "\\p{Ll}", "[[:upper:]]", "[[:lower:]]+", "\\P{Lu}", "(?:\\p{Lu}|\\d)", "\\p{Lu}a", "\\p{Lu}A", "a[[:upper:]]", "[[:upper:]]\\b", "\\p{Lu}+$", "^\\p{Ll}"] {
         out.push(cs.replace("\\\\", "\\"));
     }
-    for raw in ["a\nb", "a\rb", "\n", "\r", "a\r\nb", "[a\r]", "[a\n]b", "a\\rb", "a\\nb", "\\r", "(?:a|\r)b", "a\x00b", "\\x00", "[a\\x00]"] {
+    for raw in ["a b", " a", "a #b", "a\tb", "a\nb", "a\rb", "\n", "\r", "a\r\nb", "[a\r]", "[a\n]b", "a\\rb", "a\\nb", "\\r", "(?:a|\r)b", "a\x00b", "\\x00", "[a\\x00]"] {
         out.push(raw.to_string());
     }
     out
@@ -170,11 +170,17 @@ pub struct Opts {
     pub fixed: bool,
     pub unicode: bool,
     pub ban_nul: bool,
+    /// the builder's ignore_whitespace (regex `x` flag)
+    pub xmode: bool,
+    /// the builder's dot_matches_new_line
+    pub dotall: bool,
+    /// the builder's swap_greed
+    pub swap_greed: bool,
 }
 
 impl Opts {
     pub fn base(lt: Lt) -> Opts {
-        Opts { lt, case: Case::Sensitive, word: false, whole_line: false, fixed: false, unicode: true, ban_nul: false }
+        Opts { lt, case: Case::Sensitive, word: false, whole_line: false, fixed: false, unicode: true, ban_nul: false, xmode: false, dotall: false, swap_greed: false }
     }
     pub fn show(&self) -> String {
         format!(
@@ -190,7 +196,7 @@ impl Opts {
             if self.fixed { " -F" } else { "" },
             if self.unicode { "" } else { " --no-unicode" },
             if self.ban_nul { " ban0" } else { "" },
-        )
+        ) + if self.xmode { " x-mode" } else { "" } + if self.dotall { " dotall" } else { "" } + if self.swap_greed { " swap-greed" } else { "" }
     }
     /// The bytes that terminate a line (never part of a line's content /
     /// never allowed inside a match).
@@ -242,6 +248,12 @@ impl Opts {
         if self.ban_nul {
             b.ban_byte(Some(0));
         }
+        // (set after the terminator arms, which switch dot-matches-new-line off
+        // the way the command line does)
+        if self.dotall {
+            b.dot_matches_new_line(true);
+        }
+        b.ignore_whitespace(self.xmode).swap_greed(self.swap_greed);
         b.build_many(patterns).map_err(|e| e.to_string())
     }
 }
@@ -306,7 +318,16 @@ pub fn spec_hir(patterns: &[&str], o: &Opts) -> Result<(Hir, String), String> {
     // (returns the HIR and the specification's regex text)
     let alts: Vec<String> = patterns
         .iter()
-        .map(|p| if o.fixed { format!("(?:{})", regex_syntax::escape(p)) } else { format!("(?:{})", p) })
+        .map(|p| {
+            if o.fixed {
+                // a fixed string is its bytes, whatever the syntax flags: also
+                // escape what the x flag would drop
+                let lit: String = p.chars().map(|c| if c.is_whitespace() || c == '#' { format!("\\x{{{:X}}}", c as u32) } else { regex_syntax::escape(&c.to_string()) }).collect();
+                format!("(?:{})", lit)
+            } else {
+                format!("(?:{})", p)
+            }
+        })
         .collect();
     let joined = alts.join("|");
     let ci = match o.case {
@@ -327,7 +348,9 @@ pub fn spec_hir(patterns: &[&str], o: &Opts) -> Result<(Hir, String), String> {
         .unicode(o.unicode)
         .case_insensitive(ci)
         .crlf(o.lt == Lt::Crlf)
-        .dot_matches_new_line(false)
+        .dot_matches_new_line(o.dotall)
+        .ignore_whitespace(o.xmode)
+        .swap_greed(o.swap_greed)
         .octal(false)
         .build()
         .parse(&text)
